@@ -1,11 +1,34 @@
 """C18 — time-warping cost is the optimal coupling cost and the matching realises it
 (tracklib/algo/comparison.py: match / compare in the DTW, FDTW and FRECHET modes)."""
 import math, itertools
-from engine import Prop, fbits, bitsf, close, untok, err_kind, load_known
+from engine import Prop, fbits, bitsf, untok, err_kind, load_known
 
 PS = ["1", "2", "inf"]
 PVAL = {"1": 1, "2": 2, "inf": float("inf")}
 TOL = 1e-9
+TINY = 1e-290
+
+
+def rclose(a, b, rel=TOL):
+    """scale-free comparison of what the check compares (costs, distances, coordinate differences, lists / dicts of them):
+    numbers by RELATIVE tolerance only. An accumulated cost is a sum or a maximum of non-negative terms d**p, each computed
+    from differences of the given coordinates without cancellation, so two correct evaluations agree to a few ulps whatever
+    the unit of the coordinates (degrees, kilometres, millimetres); an absolute tolerance (engine.close allows 1e-9) would
+    make the check blind on tracks whose coordinates are small numbers."""
+    if isinstance(a, bool) or isinstance(b, bool):
+        return a == b
+    if isinstance(a, (int, float)) and isinstance(b, (int, float)):
+        fa, fb = float(a), float(b)
+        if fa != fa or fb != fb:
+            return fa != fa and fb != fb
+        if math.isinf(fa) or math.isinf(fb):
+            return fa == fb
+        return abs(fa - fb) <= rel * max(abs(fa), abs(fb)) + TINY
+    if isinstance(a, (list, tuple)) and isinstance(b, (list, tuple)):
+        return len(a) == len(b) and all(rclose(x, y, rel) for x, y in zip(a, b))
+    if isinstance(a, dict) and isinstance(b, dict):
+        return a.keys() == b.keys() and all(rclose(a[k], b[k], rel) for k in a)
+    return a == b
 
 # ---------------------------------------------------------------------------------- how the exponent p is handed over
 # forms of a finite p = 0, 1, 2, 3 and of p = infinity; "fn" = a lambda computing the accumulation, "max" = the builtin
@@ -15,10 +38,26 @@ INF_FORMS = ["float", "math.inf", "np.inf", "np.float16", "np.float32", "np.floa
 # numpy scalar types whose name contains neither 'int' nor 'float': _p2weight leaves `weight` unbound for p not in {0, inf}
 UNBOUND_FORMS = ["np.longlong", "np.ulonglong", "np.longdouble"]
 LOWPREC_FORMS = ["np.float16", "np.float32"]
+# styles of random tracks whose unit is drawn per case (rand_frame): the same shapes from 1e-6 to 1e7 units
+SCALED_STYLES = ["walk", "neardup", "slat"]
 MODE_MATCH = {"dtw": 2, "fdtw": 3, "frechet": 4}
 MODE_CMP = {"dtw": 106, "fdtw": 107, "frechet": 108}
 CLS_UNBOUND = "p-numpy-type-name-without-int-or-float"
 CLS_LOWPREC = "fdtw-exponent-float16-float32"
+CLS_INTPOW = "fdtw-int-distance-small-numpy-int-exponent"
+CLS_GEO2D = "geo-2d-distance-asymmetric"
+# fixed pairs of tracks of the other two classes of positions (lon, lat in degrees and a common height; geocentric metres)
+GEO_FIXED = [([[2.35, 48.85, 35.0], [2.3501, 48.8502, 35.0], [2.3503, 48.8501, 35.0]], [[2.35005, 48.85, 35.0], [2.3502, 48.8503, 35.0]]),
+             ([[-70.6, -33.45, 520.0], [-70.6, -33.45, 520.0], [-70.59999, -33.45001, 520.0], [-70.5995, -33.4502, 520.0]],
+              [[-70.6001, -33.4499, 520.0], [-70.59995, -33.45015, 520.0], [-70.5994, -33.4503, 520.0]]),
+             ([[139.7, 35.68, 0.0]], [[139.7001, 35.6801, 0.0], [139.7002, 35.68, 0.0]]),
+             ([[0.0, 0.0, 0.0], [0.001, 0.0, 0.0], [0.001, 0.001, 0.0]], [[0.0, 0.001, 0.0], [0.001, 0.001, 0.0], [0.002, 0.001, 0.0]])]
+ECEF_FIXED = [([[4201000.0, 168000.0, 4780000.0], [4201003.0, 168004.0, 4780000.0], [4201003.0, 168004.0, 4780012.0]],
+               [[4201000.0, 168004.0, 4780000.0], [4201003.0, 168000.0, 4780012.0]]),
+              ([[6378137.0, 0.0, 0.0], [6378137.0, 3.0, 4.0]], [[6378137.0, 0.0, 4.0], [6378137.0, 3.0, 0.0], [6378140.0, 3.0, 4.0]])]
+ECEF_ORIGINS = [(4201000.0, 168000.0, 4780000.0), (6378137.0, 0.0, 0.0), (-2700000.0, -4300000.0, 3850000.0)]
+# numpy integer types of at most 32 bits: `B ** p` with B a Python int converts B to the type of p (OverflowError when it does not fit)
+SMALLINT_FORMS = ["np.int8", "np.int16", "np.int32", "np.intc", "np.uint8", "np.uint16", "np.uint32"]
 
 
 # ---------------------------------------------------------------------------------- tracks
@@ -42,33 +81,60 @@ def lat_tracks(npts, maxn):
 
 
 # ---------------------------------------------------------------------------------- oracle pieces
-def odist(a, b, dim):
+# the function form of `dim`: callables handed over as `dim` (on getX() / getY() of the two positions). `lead` is not symmetric.
+DIMFN = {"fn.manh": lambda p1, p2: abs(p1.getX() - p2.getX()) + abs(p1.getY() - p2.getY()),
+         "fn.cheb": lambda p1, p2: max(abs(p1.getX() - p2.getX()), abs(p1.getY() - p2.getY())),
+         "fn.lead": lambda p1, p2: max(p1.getX() - p2.getX(), 0.0) + abs(p1.getY() - p2.getY())}
+ODIMFN = {"fn.manh": lambda a, b: abs(a[0] - b[0]) + abs(a[1] - b[1]),
+          "fn.cheb": lambda a, b: max(abs(a[0] - b[0]), abs(a[1] - b[1])),
+          "fn.lead": lambda a, b: max(a[0] - b[0], 0.0) + abs(a[1] - b[1])}
+SYMMETRIC_FN = ("fn.manh", "fn.cheb")
+
+
+def defined(cls, dim):
+    """is `_distance(·, ·, dim)` defined on positions of this class? (`abs(p1.U - p2.U)` needs ENUCoords, ECEFCoords have no
+    distance2DTo)"""
+    if isinstance(dim, str):
+        return True
+    return cls == "enu" or (cls == "geo" and dim in (2, 3)) or (cls == "ecef" and dim == 3)
+
+
+def odist(a, b, dim, cls="enu"):
+    """the point distance between position a (of track2: first argument of `_distance`) and position b (of track1)"""
+    if isinstance(dim, str):
+        return ODIMFN[dim](a, b)
+    if cls == "geo":
+        # the library's own point distance, taken from the position objects directly (not through `_distance`): the distance between
+        # two geodetic positions goes through a conversion whose rounding is not this property's business
+        from tracklib.core.obs_coords import GeoCoords
+        pa, pb = GeoCoords(*a), GeoCoords(*b)
+        return pa.distance2DTo(pb) if dim == 2 else pa.distanceTo(pb)
+    if cls == "ecef" or dim == 3:
+        return math.sqrt(math.fsum([(a[0] - b[0]) ** 2, (a[1] - b[1]) ** 2, (a[2] - b[2]) ** 2]))
     if dim == 1:
         return abs(a[2] - b[2])
-    if dim == 2:
-        return math.hypot(a[0] - b[0], a[1] - b[1])
-    return math.sqrt(math.fsum([(a[0] - b[0]) ** 2, (a[1] - b[1]) ** 2, (a[2] - b[2]) ** 2]))
+    return math.hypot(a[0] - b[0], a[1] - b[1])
 
 
-def ocost(a, b, dim, p):
+def ocost(a, b, dim, p, cls="enu"):
     """d^p computed without going through the square root when p = 2"""
-    if p == "2":
+    if p == "2" and cls == "enu" and not isinstance(dim, str):
         if dim == 1:
             return (a[2] - b[2]) ** 2
         s = (a[0] - b[0]) ** 2 + (a[1] - b[1]) ** 2
         return s if dim == 2 else s + (a[2] - b[2]) ** 2
     if p in ("1", "inf"):
-        return odist(a, b, dim)
-    return odist(a, b, dim) ** int(p)      # p = 3, 4, …
+        return odist(a, b, dim, cls)
+    return odist(a, b, dim, cls) ** int(p)      # p = 2 (other classes), 3, 4, …
 
 
 def acc(p, x, c):
     return max(x, c) if p == "inf" else x + c
 
 
-def cost_matrix(t1, t2, dim, p):
+def cost_matrix(t1, t2, dim, p, cls="enu"):
     """C[i][j]: rows = track2, columns = track1"""
-    return [[ocost(b, a, dim, p) for a in t1] for b in t2]
+    return [[ocost(b, a, dim, p, cls) for a in t1] for b in t2]
 
 
 def optimum(C, p):
@@ -142,7 +208,7 @@ def check_matching(C, p, out, n1, n2, what, cost=True):
     a = 0.0
     for (i, j) in path:
         a = acc(p, a, C[i][j])
-    if not close(a, out["score"], TOL):
+    if not rclose(a, out["score"], TOL):
         return "%s: the returned matching %s costs %r but the reported score is %r" % (what, pairs, a, out["score"])
     return None
 
@@ -151,18 +217,30 @@ class P(Prop):
     id = "C18"
     design_ref = "DESIGN.md section 5, C18"
     theorems = [
-        ("TracklibVerif.Props.C18", "TV.C18.table_optimal", "T1: the score _dtw reports (T[-1,-1] of the table the driver runs) is a lower bound of the accumulated cost of every monotone unit-step coupling from the first to the last pair, and some coupling attains it; any accumulation monotone in the accumulated cost"),
+        ("TracklibVerif.Props.C18", "TV.C18.table_optimal", "T1: the score _dtw reports (T[-1,-1] of the table the driver runs) is a lower bound of the accumulated cost of every monotone unit-step coupling from the first to the last pair, and some coupling attains it; any accumulation monotone in the accumulated cost, ANY point distance (nothing assumed of it)"),
         ("TracklibVerif.Props.C18", "TV.C18.score_symmetric", "T2: swapping the two tracks gives the same score when the point distance is symmetric (the table is transposed)"),
         ("TracklibVerif.Props.C18", "TV.C18.path_valid", "T3: the list S of the backward walk through M is a monotone unit-step coupling from the last pair to (0,0); nb_links is its length; the 'pair' feature lists exactly its pairs; every observation of both tracks is linked"),
         ("TracklibVerif.Props.C18", "TV.C18.path_realises", "T4: the accumulated cost of the returned coupling equals the reported score (each back-pointer designates a minimal predecessor)"),
         ("TracklibVerif.Props.C18", "TV.C18.weight_mono", "_p2weight(p) is monotone in the accumulated cost for p = 0, 1, 2, 3, ..., inf over an ordered field"),
-        ("TracklibVerif.Props.C18", "TV.C18.distance_symm", "_distance (dim 1, 2, 3) is symmetric over an ordered field, for any sqrt"),
+        ("TracklibVerif.Props.C18", "TV.C18.distance_symm", "_distance (dim 1, 2, 3) on ENUCoords is symmetric over an ordered field, for any sqrt"),
+        ("TracklibVerif.Props.C18", "TV.C18.ecefDistance_symm", "ECEFCoords.distanceTo is symmetric, for any sqrt"),
+        ("TracklibVerif.Props.C18", "TV.C18.geoDistance3D_symm", "GeoCoords.distanceTo (distance of the ECEF images) is symmetric whatever sin / cos / sqrt / pow compute"),
+        ("TracklibVerif.Props.C18", "TV.C18.distanceOf_symm", "_distance is symmetric on ENUCoords for dim 1, 2, 3 and on GeoCoords / ECEFCoords for dim = 3 (not for dim = 2 on GeoCoords: finding geo-2d-distance-asymmetric)"),
+        ("TracklibVerif.Props.C18", "TV.C18.distanceOf_nonneg", "_distance is non-negative for every numeric dim on every class of positions when sqrt is"),
+        ("TracklibVerif.Props.C18", "TV.C18.distance_enu", "_distance on ENUCoords, dim 1 / 2 / 3: abs(dU), (p2 - p1).norm2D(), (p2 - p1).norm()"),
+        ("TracklibVerif.Props.C18", "TV.C18.distance_geo", "_distance on GeoCoords: dim 1 raises AttributeError (no U), dim 2 is distance2DTo (horizontal distance in the local frame of the second point), dim 3 the distance of the ECEF images"),
+        ("TracklibVerif.Props.C18", "TV.C18.distance_ecef", "_distance on ECEFCoords: only dim 3 is defined (no U, no distance2DTo: AttributeError)"),
+        ("TracklibVerif.Props.C18", "TV.C18.distance_function_form", "the function form of dim: the callable is the point distance, whatever the class of the positions"),
+        ("TracklibVerif.Props.C18", "TV.C18.match_distance_error", "where _distance is not defined, match (three modes, any recognised p) on non-empty tracks raises the error of the first _distance call"),
         ("TracklibVerif.Props.C18", "TV.C18.fdtw_equal", "T5: _fdtw (best-first search; the queue only assumed to return an entry of least priority) reports the same score as _dtw, for any accumulation monotone and inflationary on the distances at hand, 'big' above every candidate cost"),
         ("TracklibVerif.Props.C18", "TV.C18.fdtw_path", "T5b: the matching returned by _fdtw (walk through the antecedent map A) is a monotone unit-step coupling whose accumulated cost is the score; pair/nb_links describe it; nobody left out"),
         ("TracklibVerif.Props.C18", "TV.C18.distance_nonneg", "_distance is non-negative when sqrt is"),
         ("TracklibVerif.Props.C18", "TV.C18.weight_infl", "_p2weight(p) is inflationary on non-negative distances for p = 0, 1, 2, 3, ..., inf"),
-        ("TracklibVerif.Props.C18", "TV.C18.match_fdtw_correct", "match(track1, track2, FDTW, p, dim) on non-empty tracks over an ordered field with sqrt >= 0 and big above every candidate cost: succeeds, same score as mode DTW, S is a coupling whose cost is the score, pair/nb_links describe S, nobody left out"),
-        ("TracklibVerif.Props.C18", "TV.C18.match_correct", "match(track1, track2, DTW | FRECHET, p, dim) on non-empty tracks over an ordered field: succeeds, score = optimum over couplings, S is a coupling whose cost is the score, pair/nb_links describe S, nobody left out, swapped call reports the same score"),
+        ("TracklibVerif.Props.C18", "TV.C18.match_fdtw_correct", "match(track1, track2, FDTW, p, dim) on non-empty tracks over an ordered field, any class of positions and dim with _distance defined and >= 0 (every numeric dim when sqrt >= 0), big above every candidate cost: succeeds, same score as mode DTW, S is a coupling whose cost is the score, pair/nb_links describe S, nobody left out"),
+        ("TracklibVerif.Props.C18", "TV.C18.match_onesided", "match(track1, track2, DTW | FRECHET, p, dim) on non-empty tracks over an ordered field, EVERY class of positions and every dim (1, 2, 3, callable) on which _distance is defined: succeeds, score = optimum over couplings, S is a coupling whose cost is the score, pair/nb_links describe S, nobody left out"),
+        ("TracklibVerif.Props.C18", "TV.C18.match_correct", "the same plus: when the point distance is symmetric, the swapped call reports the same score"),
+        ("TracklibVerif.Props.C18", "TV.C18.match_correct_enu", "match_correct on ENUCoords tracks, dim in {1, 2, 3}, any sqrt, with both hypotheses discharged (the statement of the property as it stood)"),
+        ("TracklibVerif.Props.C18", "TV.C18.match_correct_3d", "match_correct on GeoCoords / ECEFCoords tracks with dim = 3, swap clause included"),
         ("TracklibVerif.Props.C18", "TV.C18.p2weight_number", "_p2weight(p) for a number whose type name contains 'int' or 'float' (Python int/float, numpy int8..64, uint8..64, float16..64): the accumulation of the VALUE of p (A + B**k, A + (B != 0) for 0, max for inf)"),
         ("TracklibVerif.Props.C18", "TV.C18.p2weight_infinite", "an infinite p gives max(A, B) whatever its type (the test p == float('inf') comes last)"),
         ("TracklibVerif.Props.C18", "TV.C18.p2weight_unrecognised", "a number other than 0 and inf whose type name contains none of int/float/function (numpy.longdouble, longlong, ulonglong, bool) leaves `weight` unbound: UnboundLocalError"),
@@ -177,25 +255,34 @@ class P(Prop):
         ("TracklibVerif.Props.C18", "TV.C18.fdtw_links_read_back", "the same for _fdtw under the hypotheses of fdtw_equal"),
         ("TracklibVerif.Props.C18", "TV.C18.compare_value", "compare(track1, track2, DTW | FDTW | FRECHET, p) is match followed by: the score for FRECHET, p = inf, p = 0; (score/nb_links)**(1/p) otherwise; errors are those of match"),
         ("TracklibVerif.Props.C18", "TV.C18.compare_correct", "compare in the modes DTW / FRECHET on non-empty tracks over an ordered field: succeeds; FRECHET / p = inf: the discrete Frechet distance (least over couplings of the largest link); finite p: (score/nb_links)**(1/p) with score the optimum and max(n1,n2) <= nb_links <= n1+n2-1 the length of the returned optimal coupling"),
+        ("TracklibVerif.Props.C18", "TV.C18.compare_fdtw_correct", "compare in the mode FDTW under the hypotheses of match_fdtw_correct: succeeds; the value is cmpValue of a coupling whose score is the optimum (p = inf: the discrete Frechet distance; finite p: (score/nb_links)**(1/p), max(n1,n2) <= nb_links <= n1+n2-1)"),
         ("TracklibVerif.Props.C18", "TV.C18.compare_mean_power", "with exact arithmetic (root k a k-th root on non-negative numbers) compare(DTW, p = k)**k * nb_links = score = least sum of d**k over all couplings"),
-        ("TracklibVerif.Props.C18", "TV.C18.costBack_nonneg", "accumulated costs are non-negative when sqrt is"),
+        ("TracklibVerif.Props.C18", "TV.C18.cost_unit_invariant", "every point distance multiplied by c > 0: _dtw returns the same coupling, nb_links and pair lists, the score multiplied by c**p (c for p = inf, 1 for p = 0): no absolute quantity enters the computation"),
+        ("TracklibVerif.Props.C18", "TV.C18.unit_invariant", "ENUCoords, dim 1/2/3: every coordinate of both tracks multiplied by c > 0 (another unit) gives the same coupling and the score multiplied by c**p, for a homogeneous sqrt (the real one; in floats exactly for c a power of two)"),
+        ("TracklibVerif.Props.C18", "TV.C18.costBack_nonneg", "accumulated costs are non-negative when the point distance is"),
         ("TracklibVerif.Props.C18", "TV.C18.npow_nonneg", "B**k >= 0 for B >= 0"),
     ]
     partial = []
-    open_statements = ["IEEE rounding: the theorems are over a linear order / ordered field; on the float runs the oracle compares with relative tolerance 1e-9",
+    open_statements = ["IEEE rounding: the theorems are over a linear order / ordered field; on the float runs the oracle compares with relative tolerance 1e-9 (no absolute tolerance: the check is the same in every unit of the coordinates)",
                        "session_history_irrelevant excludes the FDTW modes (3 / 107): their coupling is valid only under the hypotheses of match_fdtw_correct; match_fdtw_history is the single-call statement",
-                       "compare() of the FDTW mode: compare_value covers it, compare_correct does not (it would repeat the hypotheses of match_fdtw_correct)",
-                       "non-integer exponents (p = 1.5) and the function form of `dim` are neither modelled nor generated"]
+                       "the swap clause on GeoCoords tracks with dim = 2 is false for fixes of different heights (finding geo-2d-distance-asymmetric): match_onesided is what holds there",
+                       "non-integer exponents (p = 1.5), a dim other than 1, 2, 3 or a callable (`_distance` returns None), tracks whose positions are of two different classes, and STANDARD_PROJ = 2 are neither modelled nor generated"]
     modelled = ("algo/comparison.py: match and compare as called — dispatch on the integer mode constants (2/3/4, 106/107/108; UnknownModeError otherwise), "
                 "_dtw_matching / _fdtw_matching, _p2weight as its cascade of four tests on (str(type(p)), value of p) with UnboundLocalError when none fires, "
-                "for p = 0, 1, 2, 3, ... and inf in every Python / numpy scalar type and as a callable; _distance (dim 1/2/3); "
+                "for p = 0, 1, 2, 3, ... and inf in every Python / numpy scalar type and as a callable; _distance as its dispatch on dim (1 / 2 / 3 / callable) and on the "
+                "class of the positions — ENUCoords (abs(dU), norm2D, norm), GeoCoords (AttributeError, distance2DTo = toENUCoords(point).norm2D(), distanceTo through "
+                "toECEFCoords; conversions of Model/Geo.lean), ECEFCoords (AttributeError twice, distanceTo) — with the order of the errors (empty tracks first); "
                 "_dtw (distance matrix, first row/column, forward step, predecessor encoding, backward walk), _fdtw + _update_node "
                 "(priority_dict.pop_smallest as 'least (priority, key)'), _fillAF_dtw on output = track1.copy() carrying the feature rows of an earlier "
                 "matching (createAnalyticalFeature no-op, reset of every pair list, then diff/pair/ex/ey/nb_links/score), _dtw_comparison / _fdtw_comparison "
                 "((score/nb_links)**(1/p), the TypeError of the fast variant on a callable p); sessions of calls on shared objects (runSeq)")
     rule = ("exhaustive: all ordered pairs of small tracks on the lattices {0,1}^2 (dim 2), {0,1,2} (dim 1) and {0,1,2}^2 (dim 2) "
             "(sizes per tier in exhaustive_scopes), each with p = 1, 2, inf, the swapped call and the FDTW score; random: sizes 1..8 (10% up to 12), "
-            "integer / half-integer lattices, axis-aligned integer tracks (exact ties in every dim), general floats, projected survey coordinates (offsets 6e5 / 5e6, points up to 2 km apart) and (sessions) tracks 1e4..1e7 apart; coordinates as Python floats, Python ints or numpy.float64 (sessions), dim 1/2/3, modes DTW/FDTW/FRECHET, "
+            "integer / half-integer lattices, axis-aligned integer tracks (exact ties in every dim), general floats, projected survey coordinates (offsets 6e5 / 5e6, points up to 2 km apart) and (sessions) tracks 1e4..1e7 apart; "
+            "the same shapes in every unit: walks whose unit is 1e-6 .. 1e7 (origin up to 1000 units away), lattices scaled by 2^-20 .. 2^23 (ties survive), and `neardup` walks where four steps in ten are 1e-3 .. 1e-9 of a unit "
+            "(or one ulp) — consecutive fixes that differ by less than any fixed tolerance — and one in ten repeats the fix; positions of class ENUCoords (83%), GeoCoords (12%: lon/lat walks of 1e-5 .. 1e-3 degree per step, "
+            "steps down to 1e-9 degree, equal heights where the swapped call is compared) and ECEFCoords (5%), including the dim for which _distance is not defined on the class (AttributeError: correspondence only); dim as 1/2/3 or "
+            "(one call in ten) in its function form (Manhattan, Chebyshev, a non-symmetric callable: no swap clause for that one); coordinates as Python floats, Python ints or numpy.float64 (sessions), modes DTW/FDTW/FRECHET, "
             "one case in ten through compare(). Sessions (kind seq): 1..4 calls of match / compare on 2..4 shared tracks, the first or second argument being "
             "a track or what an earlier match returned (55% / 20%), 12% of the tracks already carrying diff/pair/ex/ey features (lists, scalars, a subset); "
             "p = 0, 1, 2, 3, inf in every form (Python int/float, numpy int8..64 / uint8..64 / intc / float16..64, math.inf / numpy.inf / numpy.longdouble(inf), "
@@ -207,7 +294,10 @@ class P(Prop):
             "the input histogram counts the cases where two least predecessors tie")
     trusted = ["priority_dict (heapq with lazy deletion) is modelled by its contract: pop_smallest returns an entry with the least (priority, key)",
                "numpy float64 `**` and Python float `**` with an integer-valued exponent are modelled by repeated `*` (compared with relative tolerance 1e-9); x**(1.0/k) by sqrt for k = 2 and libm pow otherwise",
-               "str(type(p)) is computed by the harness on the object it hands to tracklib and passed to the model (blanks removed); the substring tests are the model's"]
+               "str(type(p)) is computed by the harness on the object it hands to tracklib and passed to the model (blanks removed); the substring tests are the model's",
+               "the function form of dim is modelled by the function the callable computes (three callables, written once in Python and once in the driver); `'function' in str(type(dim))` is not re-tested by the model",
+               "on GeoCoords tracks the oracle takes the point distances from the position objects (GeoCoords.distance2DTo / distanceTo called directly, not through _distance): the geodesy is C14's business, the optimum over couplings is recomputed independently",
+               "Lean Float.sin / cos / atan2 / pow / sqrt and Python's math functions are the same libm (the driver's GeoCoords distances agree with tracklib's within the 1e-9 relative tolerance on every generated input, fixes 1e-9 degree apart included)"]
 
     def setup(self):
         from tracklib.core.obs_coords import ENUCoords
@@ -218,7 +308,9 @@ class P(Prop):
         import numpy as np
         self.C = C
         self.np = np
-        self.mk = lambda tr: Track([Obs(ENUCoords(x, y, z), ObsTime()) for (x, y, z) in pts(tr)])
+        from tracklib.core.obs_coords import GeoCoords, ECEFCoords
+        self.COORDS = {"enu": ENUCoords, "geo": GeoCoords, "ecef": ECEFCoords}
+        self.mk = lambda tr, cls="enu": Track([Obs(self.COORDS[cls](x, y, z), ObsTime()) for (x, y, z) in pts(tr)])
         # inputs of a listed (unrepaired) finding are generated only while it is listed: see classify()
         self.listed = {e.get("class") for e in load_known(self.id) if e.get("status") == "finding"}
         self.MM = {"dtw": C.MODE_MATCHING_DTW, "fdtw": C.MODE_MATCHING_FDTW, "frechet": C.MODE_MATCHING_FRECHET}
@@ -232,13 +324,17 @@ class P(Prop):
                     "same, all ordered pairs of tracks of sizes 1..3 on the lattice {0,1,2}^2, dim 2, track1 up to the 8 symmetries of the square",
                     "modes FDTW and FRECHET: all ordered pairs of tracks of sizes 1..3 on {0,1}^2 (dim 2) and on the 1-D lattice {0,1,2} (dim 1)",
                     "a matched track matched again, m = match(t1, t2, modeA, pA); match(m, t3, modeB, pB): every pair of modes (9), (pA, pB) in {(1,1), (2,inf), (inf,2)}, all ordered pairs (t1, t2) of sizes 1..3 on the 1-D lattice {0,1,2}, t3 = mirror image of t2 + one point",
-                    "every form of p (15 forms of 0, 1, 2, 3; 9 forms of inf) x {DTW, FDTW} x {match, compare} on 6 fixed pairs of tracks (dim 1, 2, 3; with and without ties)"]
+                    "every form of p (15 forms of 0, 1, 2, 3; 9 forms of inf) x {DTW, FDTW} x {match, compare} on 6 fixed pairs of tracks (dim 1, 2, 3; with and without ties)",
+                    "function form of dim (3 callables: Manhattan, Chebyshev, a non-symmetric one), mode DTW, p in {1,2,inf}: all ordered pairs of tracks of sizes 1..3 on the lattice {0,1}^2",
+                    "positions of class GeoCoords (4 fixed pairs) and ECEFCoords (2 fixed pairs) x dim in {1, 2, 3, 3 callables} x {DTW, FDTW, FRECHET} x {match with p in {1,2,inf}, compare with p = 2}"]
         return ["mode DTW (with the FDTW score and the swapped score), p in {1,2,inf}: all ordered pairs of tracks of sizes 1..3 on the lattice {0,1}^2, dim 2 (84^2 pairs)",
                 "same, all ordered pairs of tracks of sizes 1..3 on the 1-D lattice {0,1,2}, dim 1 (39^2 pairs)",
                 "same, all ordered pairs of tracks of sizes 1..2 on the lattice {0,1,2}^2, dim 2 (90^2 pairs)",
                 "modes FDTW and FRECHET: all ordered pairs of tracks of sizes 1..3 on the 1-D lattice {0,1,2}, dim 1",
                 "a matched track matched again, m = match(t1, t2, modeA, pA); match(m, t3, modeB, pB): every pair of modes (9), (pA, pB) in {(1,1), (2,inf), (inf,2)}, all ordered pairs (t1, t2) of sizes 1..2 on the 1-D lattice {0,1,2}, t3 = mirror image of t2 + one point",
-                "every form of p (15 forms of 0, 1, 2, 3; 9 forms of inf) x {DTW, FDTW} x {match, compare} on 6 fixed pairs of tracks (dim 1, 2, 3; with and without ties)"]
+                "every form of p (15 forms of 0, 1, 2, 3; 9 forms of inf) x {DTW, FDTW} x {match, compare} on 6 fixed pairs of tracks (dim 1, 2, 3; with and without ties)",
+                "function form of dim (3 callables: Manhattan, Chebyshev, a non-symmetric one), mode DTW, p in {1,2,inf}: all ordered pairs of tracks of sizes 1..2 on the lattice {0,1}^2",
+                "positions of class GeoCoords (4 fixed pairs) and ECEFCoords (2 fixed pairs) x dim in {1, 2, 3, 3 callables} x {DTW, FDTW, FRECHET} x {match with p in {1,2,inf}, compare with p = 2}"]
 
     @staticmethod
     def sym_canon(t, g=3):
@@ -276,22 +372,34 @@ class P(Prop):
             allpairs(3, 9, 2, 2, "dtw", PS)
         allpairs(3, 3, 3, 1, "fdtw", PS)
         allpairs(3, 3, 3, 1, "frechet", ["inf"])
+        # the function form of `dim` (three callables) on the lattice {0,1}^2; every class of positions x every dim x every mode
+        for fn in sorted(DIMFN):
+            allpairs(2, 4, 3 if th else 2, fn, "dtw", PS)
+        for cls, pairs in (("geo", GEO_FIXED), ("ecef", ECEF_FIXED)):
+            for (a, b) in pairs:
+                for dim in (1, 2, 3) + tuple(sorted(DIMFN)):
+                    for mode in ("dtw", "fdtw", "frechet"):
+                        out.append({"kind": "m", "mode": mode, "ps": ["inf"] if mode == "frechet" else PS, "dim": dim, "a": a, "b": b, "cls": cls})
+                        out.append({"kind": "cmp", "mode": mode, "p": "2", "dim": dim, "a": a, "b": b, "cls": cls})
         # random
         nrand = 40000 if th else 5000
         for k in range(nrand):
             r = rng.random()
             hi = 8 if r < 0.9 else 12
             n1, n2 = rng.randint(1, hi), rng.randint(1, hi)
-            style = rng.choice(["lat3", "lat3", "lat2", "half", "float", "line", "utm"])
+            style = rng.choice(["lat3", "lat3", "lat2", "half", "float", "line", "utm", "walk", "neardup", "neardup", "slat"])
             dim = rng.choice([1, 2, 2, 3])
             mode = rng.choice(["dtw", "dtw", "fdtw", "frechet"])
             ps = ["inf"] if mode == "frechet" else [rng.choice(PS)]
-            a = self.rand_track(rng, n1, style)
-            b = self.rand_track(rng, n2, style)
+            cls, dim, style = self.rand_positions(rng, dim, style, single=(k % 10 != 9))
+            fr = self.rand_frame(rng, style)
+            a = self.rand_track(rng, n1, style, fr)
+            b = self.rand_track(rng, n2, style, fr)
+            extra = {} if cls == "enu" else {"cls": cls}
             if k % 10 == 9:
-                out.append({"kind": "cmp", "mode": mode, "p": ps[0], "dim": dim, "a": a, "b": b})
+                out.append({"kind": "cmp", "mode": mode, "p": ps[0], "dim": dim, "a": a, "b": b, **extra})
             else:
-                out.append({"kind": "m", "mode": mode, "ps": ps, "dim": dim, "a": a, "b": b})
+                out.append({"kind": "m", "mode": mode, "ps": ps, "dim": dim, "a": a, "b": b, **extra})
         out += self.seq_cases(rng, tier)
         return out
 
@@ -353,13 +461,22 @@ class P(Prop):
 
     def rand_session(self, rng):
         nt = rng.randint(2, 4)
-        style = rng.choice(["lat3", "lat3", "lat3", "lat2", "lat2", "half", "half", "float", "float", "line", "line", "utm", "utm", "far"])
+        style = rng.choice(["lat3", "lat3", "lat3", "lat2", "lat2", "half", "half", "float", "float", "line", "line", "utm", "utm", "far",
+                            "walk", "neardup", "neardup", "slat"])
         hi = 4 if rng.random() < 0.6 else 7
-        tracks = [self.rand_track(rng, rng.randint(1, hi), style) for _ in range(nt)]
+        r = rng.random()
+        cls = "geo" if r < 0.12 else ("ecef" if r < 0.16 else "enu")
+        if cls != "enu":
+            style = "ecef" if cls == "ecef" else rng.choice(["geo", "geo-level"])
+        fr = self.rand_frame(rng, style)
+        tracks = [self.rand_track(rng, rng.randint(1, hi), style, fr) for _ in range(nt)]
         pre = [rng.choice(["lists", "scalars", "partial"]) if rng.random() < 0.12 else "none" for _ in range(nt)]
-        ct = rng.choice(["float", "float", "np.float64", "int"])
+        ct = rng.choice(["float", "float", "np.float64", "int"]) if cls == "enu" else "float"
         if ct == "int" and not all(float(v).is_integer() for t in tracks for q in t for v in q):
             ct = "float"
+        zs = [q[2] for t in tracks for q in t]
+        if ct == "int" and CLS_INTPOW not in self.listed and max(zs) - min(zs) > 5:
+            ct = "float"     # altitudes as Python ints more than 5 apart (6**3 > 127) + FDTW + dim 1 + p a small numpy integer: see classify()
         steps, okres = [], []
         for k in range(rng.choice([1, 1, 2, 2, 3, 4])):
             f = "m" if rng.random() < 0.8 else "c"
@@ -377,22 +494,100 @@ class P(Prop):
                 pf = "default"
             if self.gated(f, mode, p, pf):
                 pf = "float"
-            dim = rng.choice([1, 2, 2, 3])
+            dim = rng.choice({"enu": [1, 2, 2, 3], "geo": [2, 2, 3, 3, 1], "ecef": [3, 3, 3, 2, 1]}[cls])
             df = rng.choice(["int", "int", "np", "float"]) if dim != 2 or rng.random() < 0.8 else "default"
+            if rng.random() < 0.1:
+                dim, df = rng.choice(sorted(DIMFN)), "fn"
             mf = rng.choice(["const", "const", "const", "np", "float"])
             if f == "m" and mode == "dtw" and rng.random() < 0.2:
                 mf = "default"
             vb = rng.choice(["F", "F", "T", "default"])
             st = rng.choice(["kw", "kw", "pos"])
             steps.append(self.step(f, a, b, mode, p, pf, dim, mf, df, vb, st))
-            if f == "m" and mode != "bad":
+            if f == "m" and mode != "bad" and defined(cls, dim):
                 okres.append(k)
         case = {"kind": "seq", "tracks": tracks, "pre": pre, "steps": steps}
+        if cls != "enu":
+            case["cls"] = cls
         if ct != "float":
             case["ct"] = ct      # the coordinates are handed to ENUCoords as Python ints / numpy.float64 instead of Python floats
         return case
 
-    def rand_track(self, rng, n, style):
+    def rand_positions(self, rng, dim, style, single):
+        """class of the position objects (ENUCoords 83%, GeoCoords 12%, ECEFCoords 5%), the `dim` that goes with it (one call in
+        ten in its function form; on the other classes also the values for which `_distance` is not defined) and the style of the
+        tracks. `single`: the case includes the swapped call, whose score is the same only if the point distance is symmetric —
+        GeoCoords.distance2DTo is, up to rounding, only between fixes of equal height (finding geo-2d-distance-asymmetric)."""
+        r = rng.random()
+        cls = "geo" if r < 0.12 else ("ecef" if r < 0.17 else "enu")
+        if cls == "geo":
+            dim = rng.choice([2, 2, 2, 3, 3, 3, 1])
+            style = "geo-level" if (dim == 2 and single and CLS_GEO2D not in self.listed) or rng.random() < 0.4 else "geo"
+        elif cls == "ecef":
+            dim = rng.choice([3, 3, 3, 3, 2, 1])
+            style = "ecef"
+        if rng.random() < 0.1:
+            dim = rng.choice(sorted(DIMFN))
+        return cls, dim, style
+
+    def rand_frame(self, rng, style):
+        """what the tracks of one case share: the unit of the coordinates (a factor 1e-6 .. 1e7) and where they are"""
+        if style in ("geo", "geo-level"):
+            return {"lon0": round(rng.uniform(-179, 179), 4), "lat0": round(rng.uniform(-80, 80), 4),
+                    "h0": rng.choice([0.0, 35.0, 250.0, 1800.0]), "dh": 0.0 if style == "geo-level" else rng.choice([1.0, 30.0, 300.0]),
+                    "step": 10.0 ** -rng.choice([5, 5, 4, 3])}
+        if style == "ecef":
+            return {"o": list(rng.choice(ECEF_ORIGINS)), "s": rng.choice([0.01, 1.0, 1.0, 100.0])}
+        if style not in SCALED_STYLES:
+            return None
+        if style == "slat":     # a power of two: the lattice stays exact, ties between predecessors survive the change of unit
+            s = 2.0 ** rng.randint(-20, 23)
+            return {"s": s, "o": [0.0, 0.0, 0.0]}
+        s = 10.0 ** rng.randint(-6, 7)
+        k = rng.choice([0, 0, 1, 30, 1000])   # the origin: at 0, or up to 1000 units away (lon/lat of a town, a projected survey)
+        return {"s": s, "o": [round(rng.uniform(-k, k), 3) * s for _ in range(3)]}
+
+    def rand_track(self, rng, n, style, frame=None):
+        if style in ("geo", "geo-level", "ecef"):
+            # lon/lat in degrees (1e-5 degree is about a metre) and heights in metres / geocentric metres: a walk, one step in four
+            # tiny (down to 1e-9 degree / 1e-4 of the unit), one in ten null
+            if style == "ecef":
+                unit = [frame["s"]] * 3
+                q = [frame["o"][c] + rng.uniform(-2, 2) * unit[c] for c in range(3)]
+            else:
+                unit = [frame["step"], frame["step"], frame["dh"]]
+                q = [frame["lon0"] + rng.uniform(-2, 2) * unit[0], frame["lat0"] + rng.uniform(-2, 2) * unit[1],
+                     frame["h0"] + rng.uniform(-1, 1) * unit[2]]
+            tr = [list(q)]
+            for _ in range(n - 1):
+                r = rng.random()
+                f = 0.0 if r < 0.1 else (10.0 ** -rng.choice([2, 3, 4]) if r < 0.35 else 1.0)
+                q = [q[c] + rng.uniform(-1, 1) * unit[c] * f for c in range(3)]
+                tr.append(list(q))
+            return tr
+        if style in SCALED_STYLES:
+            s, o = frame["s"], frame["o"]
+            if style == "slat":
+                return [[rng.randint(0, 2) * s, rng.randint(0, 2) * s, rng.randint(0, 2) * s] for _ in range(n)]
+            # a walk: steps of about one unit; in `neardup` four steps in ten are tiny (1e-3 .. 1e-9 of a unit: two fixes that
+            # differ, but by less than any fixed tolerance) and one in ten is null (the same fix twice)
+            q = [o[c] + rng.uniform(-2, 2) * s for c in range(3)]
+            tr = [list(q)]
+            for _ in range(n - 1):
+                r = rng.random()
+                if style == "neardup" and r < 0.1:
+                    f = 0.0
+                elif style == "neardup" and r < 0.5:
+                    f = 10.0 ** -rng.choice([3, 4, 5, 6, 7, 9])
+                else:
+                    f = 1.0
+                nq = [q[c] + rng.uniform(-1, 1) * s * f for c in range(3)]
+                if f != 0.0 and nq == q:          # below the resolution of a double at this offset: one ulp on one axis
+                    c = rng.randrange(3)
+                    nq[c] = math.nextafter(q[c], math.inf)
+                q = nq
+                tr.append(list(q))
+            return tr
         if style == "lat3":
             return [[rng.randint(0, 2), rng.randint(0, 2), rng.randint(0, 2)] for _ in range(n)]
         if style == "lat2":
@@ -413,7 +608,9 @@ class P(Prop):
         """some interior cell of the forward table has two equal least predecessors (the back-pointer rule matters)"""
         t1, t2 = pts(case["a"]), pts(case["b"])
         p = case["ps"][0] if case["kind"] == "m" else case["p"]
-        C = cost_matrix(t1, t2, case["dim"], p)
+        if not defined(case.get("cls", "enu"), case["dim"]):
+            return False
+        C = cost_matrix(t1, t2, case["dim"], p, case.get("cls", "enu"))
         n2, n1 = len(C), len(C[0])
         T = [[0.0] * n1 for _ in range(n2)]
         tie = False
@@ -431,16 +628,33 @@ class P(Prop):
                     T[i][j] = acc(p, v[0], C[i][j])
         return tie
 
+    @staticmethod
+    def geom_tags(tracks):
+        """unit of the coordinates (decade of the extent of the fixes) and how close consecutive fixes come"""
+        allp = [q for t in tracks for q in t]
+        if not allp:
+            return {}
+        ext = max(max(q[c] for q in allp) - min(q[c] for q in allp) for c in range(3))
+        gaps = [max(abs(a[c] - b[c]) for c in range(3)) for t in tracks for a, b in zip(t, t[1:])]
+        near = "none (single fixes)"
+        if gaps:
+            pos = [g for g in gaps if g > 0]
+            near = "distinct, closer than 1e-4 on every axis" if pos and min(pos) < 1e-4 else \
+                ("identical" if len(pos) < len(gaps) else "apart")
+        return {"extent_decade": "0" if ext == 0 else "1e%d" % math.floor(math.log10(ext)), "consecutive_fixes": near}
+
     def describe(self, case):
         if case["kind"] == "seq":
             sts = case["steps"]
-            return {"kind": "seq", "calls": len(sts), "front": ",".join(sorted({st["f"] for st in sts})),
+            return {"kind": "seq", **self.geom_tags([pts(t) for t in case["tracks"]]), "positions": case.get("cls", "enu"),
+                    "dim": str(sts[0]["dim"]), "calls": len(sts), "front": ",".join(sorted({st["f"] for st in sts})),
                     "first_argument_already_matched": any(st["a"].startswith("r") for st in sts),
                     "track_with_earlier_features": any(q != "none" for q in case["pre"]),
                     "p_form": sts[0]["pf"], "p": sts[0]["p"], "mode": sts[0]["mode"], "coordinates": case.get("ct", "float"),
                     "argument_style": "%s mode=%s dim=%s verbose=%s" % (sts[0]["st"], sts[0]["mf"], sts[0]["df"], sts[0]["vb"])}
         t1, t2 = pts(case["a"]), pts(case["b"])
-        return {"kind": case["kind"], "mode": case["mode"], "dim": case["dim"],
+        return {"kind": case["kind"], "mode": case["mode"], "dim": str(case["dim"]), "positions": case.get("cls", "enu"),
+                **self.geom_tags([t1, t2]),
                 "p": ",".join(case["ps"]) if case["kind"] == "m" else case["p"],
                 "sizes": "%s x %s" % (min(len(t1), 9), min(len(t2), 9)) if max(len(t1), len(t2)) <= 4 else "larger",
                 "tie_between_predecessors": self.has_tie(case) if len(t1) > 1 and len(t2) > 1 else False}
@@ -485,10 +699,11 @@ class P(Prop):
             return float(k)
         return getattr(np, pf[3:])(k)
 
-    def mk_pre(self, tr, pre, ct="float"):
-        """a track of the session; `pre`: it already carries features under the names `match` writes; `ct`: type of the coordinates"""
-        if ct == "float":
-            t = self.mk(tr)
+    def mk_pre(self, tr, pre, ct="float", cls="enu"):
+        """a track of the session; `pre`: it already carries features under the names `match` writes; `ct`: type of the coordinates;
+        `cls`: class of the position objects"""
+        if ct == "float" or cls != "enu":
+            t = self.mk(tr, cls)
         else:
             from tracklib.core.obs_coords import ENUCoords
             from tracklib.core.obs import Obs
@@ -525,7 +740,9 @@ class P(Prop):
             args.append(("mode", conv[st["mf"]](v)))
         if st["pf"] != "default":
             args.append(("p", self.mkp(st["p"], st["pf"])))
-        if st["df"] != "default":
+        if st["df"] == "fn":
+            args.append(("dim", DIMFN[st["dim"]]))
+        elif st["df"] != "default":
             args.append(("dim", conv[st["df"]](st["dim"])))
         if st["vb"] != "default":
             args.append(("verbose", st["vb"] == "T"))
@@ -538,7 +755,7 @@ class P(Prop):
         return fn(A, B, *pos, **kw)
 
     def impl_seq(self, case):
-        objs = [self.mk_pre(tr, pre, case.get("ct", "float")) for tr, pre in zip(case["tracks"], case["pre"])]
+        objs = [self.mk_pre(tr, pre, case.get("ct", "float"), case.get("cls", "enu")) for tr, pre in zip(case["tracks"], case["pre"])]
         res = []
         for st in case["steps"]:
             A, B = objs[self.idx(case, st["a"])], objs[self.idx(case, st["b"])]
@@ -575,7 +792,7 @@ class P(Prop):
             ty = str(type(self.mkp(st["p"], st["pf"]))).replace(" ", "")
             val, fnw = (("-", st["p"]) if st["pf"] in ("fn", "max") else (st["p"], "-"))
             toks.append(":".join([st["f"], str(mode), ty, val, fnw, str(st["dim"]), str(self.idx(case, st["a"])), str(self.idx(case, st["b"]))]))
-        return ["C18.seq %s %s %s" % ("|".join(self.tok(t) for t in case["tracks"]),
+        return ["C18.seq %s %s %s %s" % (case.get("cls", "enu"), "|".join(self.tok(t) for t in case["tracks"]),
                                       ",".join("0" if q == "none" else "1" for q in case["pre"]), ";".join(toks))]
 
     def dec_seq(self, case, replies):
@@ -591,11 +808,13 @@ class P(Prop):
                 res.append({"value": bitsf(r)})
         return {"steps": res}
 
-    def exact_tracks(self, t1, t2, dim):
+    def exact_tracks(self, t1, t2, dim, cls="enu"):
+        if cls != "enu" and not isinstance(dim, str):
+            return False
         for q in t1 + t2:
             if any(v * 2 != int(v * 2) or abs(v) > 1000 for v in q):
                 return False
-        if dim == 1:
+        if dim == 1 or isinstance(dim, str):
             return True
         return all(odist(a, b, dim) * 2 == int(odist(a, b, dim) * 2) for a in t1 for b in t2)
 
@@ -604,28 +823,28 @@ class P(Prop):
             return "impl=%s model=%s" % (str(impl_out)[:300], str(model_out)[:300])
         for k, st in enumerate(case["steps"]):
             io, mo = impl_out["steps"][k], model_out["steps"][k]
-            if self.gated(st["f"], st["mode"], st["p"], st["pf"]) == CLS_LOWPREC:
-                continue     # d**p is computed in float16/float32 there: listed finding, the model works in float64
+            if self.gated(st["f"], st["mode"], st["p"], st["pf"]) == CLS_LOWPREC or self.intpow(case, st):
+                continue     # d**p is computed in float16/float32 (in int8 .. uint32) there: listed findings, the model works in float64
             if "err" in io or "err" in mo:
                 if io.get("err") != mo.get("err"):
                     return "call %d: impl=%s model=%s" % (k, str(io)[:200], str(mo)[:200])
                 continue
             if st["f"] == "c":
-                if not close(io["value"], mo["value"], TOL):
+                if not rclose(io["value"], mo["value"], TOL):
                     return "call %d: compare impl=%r model=%r" % (k, io["value"], mo["value"])
                 continue
             if io["pairs"] != mo["pairs"]:
                 t1, t2 = self.geo(case, st["a"]), self.geo(case, st["b"])
                 pe = "inf" if st["mode"] == "frechet" else st["p"]
-                Cm = cost_matrix(t1, t2, st["dim"], pe)
+                Cm = cost_matrix(t1, t2, st["dim"], pe, case.get("cls", "enu"))
                 bad = check_matching(Cm, pe, io, len(t1), len(t2), "implementation", pe != "0") or \
                     check_matching(Cm, pe, mo, len(t1), len(t2), "model", pe != "0")
-                if bad or not close(io["score"], mo["score"], TOL):
+                if bad or not rclose(io["score"], mo["score"], TOL):
                     return "call %d: pairs impl=%s model=%s (%s)" % (k, io["pairs"], mo["pairs"], bad or "scores differ")
-                if self.exact_tracks(t1, t2, st["dim"]):
+                if self.exact_tracks(t1, t2, st["dim"], case.get("cls", "enu")):
                     return "call %d: exact-arithmetic input, yet the couplings differ: impl=%s model=%s" % (k, io["pairs"], mo["pairs"])
                 continue
-            if not close(io, mo, TOL):
+            if not rclose(io, mo, TOL):
                 return "call %d: impl=%s model=%s" % (k, io, mo)
         return None
 
@@ -635,9 +854,12 @@ class P(Prop):
         n1, n2 = len(t1), len(t2)
         if n1 == 0 or n2 == 0 or st["mode"] == "bad":
             return None     # sizes 1..n; a constant of the other front end is refused (UnknownModeError), not part of the statement
-        what = "%s(%s, %s, %s, p=%s as %s, dim=%d)" % ("match" if st["f"] == "m" else "compare", st["a"], st["b"], st["mode"], st["p"], st["pf"], st["dim"])
+        what = "%s(%s, %s, %s, p=%s as %s, dim=%s)" % ("match" if st["f"] == "m" else "compare", st["a"], st["b"], st["mode"], st["p"], st["pf"], st["dim"])
         if st["f"] == "c" and st["pf"] in ("fn", "max"):
             return None     # compare() with a callable p: outside the statement (p in {1, 2, infinity}); correspondence only
+        cls = case.get("cls", "enu")
+        if not defined(cls, st["dim"]):
+            return None     # no point distance of that kind on positions of this class (AttributeError): correspondence only
         if "err" in o:
             return "%s raised %s (%s)" % (what, o["err"], o.get("detail", ""))
         pe = "inf" if st["mode"] == "frechet" else st["p"]
@@ -645,14 +867,14 @@ class P(Prop):
         if st["f"] == "c":
             if pe != "inf":
                 return None   # (score/nb_links)^(1/p): not part of the statement; correspondence only
-            want = optimum(cost_matrix(t1, t2, dim, "inf"), "inf")
-            if not close(o["value"], want, TOL):
+            want = optimum(cost_matrix(t1, t2, dim, "inf", cls), "inf")
+            if not rclose(o["value"], want, TOL):
                 return "%s = %r, the discrete Frechet distance (least maximal link over all couplings) is %r" % (what, o["value"], want)
             return None
-        Cm = cost_matrix(t1, t2, dim, pe if pe != "0" else "1")
+        Cm = cost_matrix(t1, t2, dim, pe if pe != "0" else "1", cls)
         if pe != "0":      # p = 0 (number of links with a non-zero distance; 0**0 is a convention): only the matching is judged
             want = optimum(Cm, pe)
-            if not close(o["score"], want, TOL):
+            if not rclose(o["score"], want, TOL):
                 return "%s: score %r, the least accumulated cost over all monotone couplings for the requested p is %r" % (what, o["score"], want)
         return check_matching(Cm, pe, o, n1, n2, what, pe != "0")
 
@@ -683,8 +905,10 @@ class P(Prop):
         C = self.C
         if case["kind"] == "seq":
             return self.impl_seq(case)
-        t1, t2 = self.mk(case["a"]), self.mk(case["b"])
+        t1, t2 = self.mk(case["a"], case.get("cls", "enu")), self.mk(case["b"], case.get("cls", "enu"))
         dim, mode = case["dim"], case["mode"]
+        if isinstance(dim, str):
+            dim = DIMFN[dim]
         if case["kind"] == "cmp":
             pa = PVAL[self.parg(case)] if mode == "frechet" else PVAL[case["p"]]
             return {"value": float(C.compare(t1, t2, mode=self.CM[mode], p=pa, dim=dim, verbose=False))}
@@ -711,18 +935,18 @@ class P(Prop):
         if case["kind"] == "seq":
             return self.req_seq(case)
         a, b = self.tok(case["a"]), self.tok(case["b"])
-        dim, mode = case["dim"], case["mode"]
+        dim, mode, cls = case["dim"], case["mode"], case.get("cls", "enu")
         if case["kind"] == "cmp":
-            return ["C18.compare %s %s %d %s %s" % (mode, self.parg(case) if mode == "frechet" else case["p"], dim, a, b)]
+            return ["C18.compare %s %s %s %s %s %s" % (cls, mode, self.parg(case) if mode == "frechet" else case["p"], dim, a, b)]
         out = []
         for p in case["ps"]:
             pa = self.parg(case) if mode == "frechet" else p
-            out.append("C18.match %s %s %d %s %s" % (mode, pa, dim, a, b))
-            out.append("C18.match %s %s %d %s %s" % (mode, pa, dim, b, a))
+            out.append("C18.match %s %s %s %s %s %s" % (cls, mode, pa, dim, a, b))
+            out.append("C18.match %s %s %s %s %s %s" % (cls, mode, pa, dim, b, a))
             if mode == "dtw":
-                out.append("C18.match fdtw %s %d %s %s" % (p, dim, a, b))
+                out.append("C18.match %s fdtw %s %s %s %s" % (cls, p, dim, a, b))
             if mode == "frechet":
-                out.append("C18.compare frechet inf %d %s %s" % (dim, a, b))
+                out.append("C18.compare %s frechet inf %s %s %s" % (cls, dim, a, b))
         return out
 
     @staticmethod
@@ -760,24 +984,24 @@ class P(Prop):
                 return None
             return "impl=%s model=%s" % (impl_out, model_out)
         if case["kind"] == "cmp":
-            return Prop.compare(self, case, impl_out, model_out)
+            return None if rclose(impl_out, model_out, TOL) else "impl=%s model=%s" % (impl_out, model_out)
         t1, t2 = pts(case["a"]), pts(case["b"])
         for p in case["ps"]:
             io, mo = impl_out[p], model_out[p]
             if io["pairs"] != mo["pairs"]:
                 # a different coupling is acceptable only when it is a valid optimal one too (a tie, resolved
                 # differently because of the last bit of a float): validated by the property's oracle
-                C = cost_matrix(t1, t2, case["dim"], p)
+                C = cost_matrix(t1, t2, case["dim"], p, case.get("cls", "enu"))
                 bad = check_matching(C, p, io, len(t1), len(t2), "implementation") or check_matching(C, p, mo, len(t1), len(t2), "model")
-                if bad or not close(io["score"], mo["score"], TOL):
+                if bad or not rclose(io["score"], mo["score"], TOL):
                     return "p=%s: pairs impl=%s model=%s (%s)" % (p, io["pairs"], mo["pairs"], bad or "scores differ")
                 if self.exact(case):
                     return "p=%s: exact-arithmetic input, yet the couplings differ: impl=%s model=%s" % (p, io["pairs"], mo["pairs"])
                 for k in ("score", "score_swapped", "score_fast", "compare"):
-                    if k in io and not close(io[k], mo[k], TOL):
+                    if k in io and not rclose(io[k], mo[k], TOL):
                         return "p=%s: %s impl=%r model=%r" % (p, k, io[k], mo[k])
                 continue
-            if not close(io, mo, TOL):
+            if not rclose(io, mo, TOL):
                 return "p=%s: impl=%s model=%s" % (p, io, mo)
         return None
 
@@ -786,10 +1010,12 @@ class P(Prop):
         so ties are resolved identically by the code and by the model; FDTW's choice among equal couplings is the
         heap's, modelled too"""
         t1, t2 = pts(case["a"]), pts(case["b"])
+        if case.get("cls", "enu") != "enu" and not isinstance(case["dim"], str):
+            return False
         for q in t1 + t2:
             if any(v * 2 != int(v * 2) or abs(v) > 1000 for v in q):
                 return False
-        if case["dim"] == 1:
+        if case["dim"] == 1 or isinstance(case["dim"], str):
             return True
         for a in t1:
             for b in t2:
@@ -799,7 +1025,7 @@ class P(Prop):
         return True
 
     # ---------------------------------------------------------------- oracle (transfer)
-    def spec(self, case, out):
+    def spec(self, case, out, skip_swap=False):
         if case["kind"] == "seq":
             f = self.first_failure(case, out)
             return f[1] if f else None
@@ -807,43 +1033,59 @@ class P(Prop):
         n1, n2 = len(t1), len(t2)
         if n1 == 0 or n2 == 0:
             return None     # the property is about tracks of sizes 1..n
+        if not defined(case.get("cls", "enu"), case["dim"]):
+            return None     # no point distance of that kind on positions of this class (AttributeError): correspondence only
         if "err" in out:
             return "raised %s (%s)" % (out["err"], out.get("detail", ""))
-        dim, mode = case["dim"], case["mode"]
+        dim, mode, cls = case["dim"], case["mode"], case.get("cls", "enu")
         if case["kind"] == "cmp":
             p = "inf" if mode == "frechet" else case["p"]
             if p != "inf":
                 return None   # (score/nb_links)^(1/p): not part of the statement; correspondence only
-            want = optimum(cost_matrix(t1, t2, dim, "inf"), "inf")
-            if not close(out["value"], want, TOL):
+            want = optimum(cost_matrix(t1, t2, dim, "inf", cls), "inf")
+            if not rclose(out["value"], want, TOL):
                 return "compare(%s) = %r, the discrete Frechet distance (least maximal link over all couplings) is %r" % (mode, out["value"], want)
             return None
         for p in case["ps"]:
             pe = "inf" if mode == "frechet" else p
             o = out[p]
-            C = cost_matrix(t1, t2, dim, pe)
+            C = cost_matrix(t1, t2, dim, pe, cls)
             want = optimum(C, pe)
-            what = "%s p=%s dim=%d" % (mode, pe, dim)
-            if not close(o["score"], want, TOL):
+            what = "%s p=%s dim=%s%s" % (mode, pe, dim, "" if cls == "enu" else " positions=" + cls)
+            if not rclose(o["score"], want, TOL):
                 return "%s: score %r, the least accumulated cost over all monotone couplings is %r" % (what, o["score"], want)
-            if not close(o["score_swapped"], o["score"], TOL):
+            # the swap clause presupposes a symmetric point distance: not asked of a caller's own asymmetric callable
+            if (not isinstance(dim, str) or dim in SYMMETRIC_FN) and not skip_swap and not rclose(o["score_swapped"], o["score"], TOL):
                 return "%s: score %r but %r with the two tracks swapped" % (what, o["score"], o["score_swapped"])
             bad = check_matching(C, pe, o, n1, n2, what)
             if bad:
                 return bad
-            if "score_fast" in o and not close(o["score_fast"], o["score"], TOL):
+            if "score_fast" in o and not rclose(o["score_fast"], o["score"], TOL):
                 return "%s: the fast variant reports %r, DTW reports %r" % (what, o["score_fast"], o["score"])
-            if "compare" in o and not close(o["compare"], want, TOL):
+            if "compare" in o and not rclose(o["compare"], want, TOL):
                 return "%s: compare(FRECHET) = %r, the discrete Frechet distance is %r" % (what, o["compare"], want)
         return None
 
     def classify(self, case, impl_out, msg):
-        """two classes, each a decidable predicate on the first failing call of a session:
+        """four classes. One on single calls:
+        geo-2d-distance-asymmetric: tracks of GeoCoords whose fixes do not all have the same height, dim = 2, and the only clause
+            that fails is "same score with the two tracks swapped": `GeoCoords.distance2DTo(q)` is the horizontal distance in the
+            local frame of q, `q.distance2DTo(p)` in that of p, and the two horizontal planes differ (relative difference of the
+            order of dh / R per unit of dh / d);
+        three, each a decidable predicate on the first failing call of a session:
+        fdtw-int-distance-small-numpy-int-exponent: FDTW with dim = 1 on tracks whose altitudes are Python ints, p >= 1 a numpy
+            integer of at most 32 bits: `_fdtw` hands the raw `abs(U1 - U2)` (a Python int) to `B**p`, numpy converts B to the
+            type of p and raises OverflowError when it does not fit, or wraps around silently when the power does not
+            (65536 ** uint32(2) = 0: a wrong score) (`_dtw` reads the distance back from a float64 array);
         p-numpy-type-name-without-int-or-float: p is a numpy scalar of type longlong / ulonglong / longdouble with a value other
             than 0 and infinity, and the call raised UnboundLocalError (`_p2weight` recognises numbers by the substrings
             'int' / 'float' of the type name);
         fdtw-exponent-float16-float32: FDTW (match or compare) with a finite p >= 1 given as numpy.float16 / numpy.float32:
             `_fdtw` raises a Python float to that power, which numpy evaluates in the precision of the exponent"""
+        if (case.get("kind") == "m" and case.get("cls") == "geo" and case.get("dim") == 2 and isinstance(impl_out, dict)
+                and "err" not in impl_out and len({q[2] for q in pts(case["a"]) + pts(case["b"])}) > 1
+                and self.spec(case, impl_out, skip_swap=True) is None):
+            return CLS_GEO2D     # everything holds but the swap clause, on GeoCoords fixes of different heights, dim = 2
         if case.get("kind") != "seq" or not isinstance(impl_out, dict) or "steps" not in impl_out:
             return None
         f = self.first_failure(case, impl_out)
@@ -855,7 +1097,16 @@ class P(Prop):
             return cls
         if cls == CLS_LOWPREC and "err" not in o:
             return cls
+        if self.intpow(case, st) and o.get("err") in (None, "err:OverflowError"):
+            return CLS_INTPOW
         return None
+
+    @staticmethod
+    def intpow(case, st):
+        """FDTW, dim = 1, altitudes handed over as Python ints, p >= 1 a numpy integer of at most 32 bits: `_fdtw` computes
+        `B ** p` with B the Python int `abs(U1 - U2)`, in the integer type of p (OverflowError, or a silent wrap-around: 65536 ** uint32(2) = 0)"""
+        return (case.get("ct") == "int" and st["mode"] == "fdtw" and st["dim"] == 1 and st["pf"] in SMALLINT_FORMS
+                and st["p"] not in ("0", "inf"))
 
     # ---------------------------------------------------------------- shrinking / search
     def shrink_seq(self, case):
@@ -877,7 +1128,7 @@ class P(Prop):
                            steps=[dict(st, a=rent(st["a"]), b=rent(st["b"])) for st in steps])
         # plainer calls
         for k, st in enumerate(steps):
-            plain = dict(st, mf="const", df="int", vb="F", st="kw")
+            plain = dict(st, mf="const", df="fn" if st["df"] == "fn" else "int", vb="F", st="kw")
             if plain != st:
                 yield dict(case, steps=steps[:k] + [plain] + steps[k + 1:])
             if st["pf"] not in ("int", "float"):
@@ -886,8 +1137,8 @@ class P(Prop):
                 yield dict(case, steps=steps[:k] + [dict(st, a=steps[int(st["a"][1:])]["a"])] + steps[k + 1:])
             if st["b"][0] == "r":
                 yield dict(case, steps=steps[:k] + [dict(st, b=steps[int(st["b"][1:])]["a"])] + steps[k + 1:])
-            if st["dim"] != 2 and st["dim"] != 1:
-                yield dict(case, steps=steps[:k] + [dict(st, dim=2)] + steps[k + 1:])
+            if st["dim"] != 2 and st["dim"] != 1 and defined(case.get("cls", "enu"), 2):
+                yield dict(case, steps=steps[:k] + [dict(st, dim=2, df="int")] + steps[k + 1:])
         if case.get("ct"):
             yield {k: v for k, v in case.items() if k != "ct"}
         # smaller tracks, smaller coordinates
@@ -903,6 +1154,11 @@ class P(Prop):
                         t2 = [list(q) for q in t]
                         t2[k][c] = 0.0 if abs(t[k][c]) <= 1 else float(int(t[k][c] / 2))
                         yield dict(case, tracks=trs[:i] + [t2] + trs[i + 1:])
+        for i, t in enumerate(trs):      # fewer digits (the unit of the coordinates is kept)
+            for nd in (3, 6, 9):
+                t2 = [[float("%.*g" % (nd, v)) for v in q] for q in t]
+                if t2 != t:
+                    yield dict(case, tracks=trs[:i] + [t2] + trs[i + 1:])
 
     def as_session(self, case):
         """a single-call case written as a session"""
@@ -910,18 +1166,22 @@ class P(Prop):
             return case
         mode, dim = case["mode"], case["dim"]
         pf = lambda p: "float" if p == "inf" else "int"
+        df = "fn" if isinstance(dim, str) else "int"
         steps = []
         if case["kind"] == "cmp":
             p = self.parg(case) if mode == "frechet" else case["p"]
-            steps.append(self.step("c", "t0", "t1", mode, p, pf(p), dim))
+            steps.append(self.step("c", "t0", "t1", mode, p, pf(p), dim, df=df))
         else:
             for p in case["ps"]:
                 pa = self.parg(case) if mode == "frechet" else p
-                steps.append(self.step("m", "t0", "t1", mode, pa, pf(pa), dim))
-                steps.append(self.step("m", "t1", "t0", mode, pa, pf(pa), dim))
+                steps.append(self.step("m", "t0", "t1", mode, pa, pf(pa), dim, df=df))
+                steps.append(self.step("m", "t1", "t0", mode, pa, pf(pa), dim, df=df))
                 if mode == "dtw":
-                    steps.append(self.step("m", "t0", "t1", "fdtw", p, pf(p), dim))
-        return {"kind": "seq", "tracks": [pts(case["a"]), pts(case["b"])], "pre": ["none", "none"], "steps": steps}
+                    steps.append(self.step("m", "t0", "t1", "fdtw", p, pf(p), dim, df=df))
+        ss = {"kind": "seq", "tracks": [pts(case["a"]), pts(case["b"])], "pre": ["none", "none"], "steps": steps}
+        if case.get("cls", "enu") != "enu":
+            ss["cls"] = case["cls"]
+        return ss
 
     def warmups(self, case):
         """for a case that fails in a long run but not alone (state kept by the library between calls): the same calls made
@@ -937,7 +1197,7 @@ class P(Prop):
                 return v + (1 + (k + c) % 2) * (i + 1)      # track i moved by its own amount: the distances change
             other = [[[moved(i, k, c, v) for c, v in enumerate(q)] for k, q in enumerate(pts(t))] for i, t in enumerate(ss["tracks"])]
             yield {"kind": "seq", "_warm": True, "tracks": other + [pts(t) for t in ss["tracks"]], "pre": ss["pre"] * 2,
-                   "steps": ss["steps"] + later}
+                   "steps": ss["steps"] + later, **({"cls": ss["cls"]} if "cls" in ss else {})}
 
     def shrink(self, case):
         if not case.get("_warm") and case.get("a") != [] and case.get("b") != []:
@@ -966,6 +1226,11 @@ class P(Prop):
                         t2 = [list(q) for q in t]
                         t2[k][c] = 0.0 if abs(t[k][c]) <= 1 else float(int(t[k][c] / 2))
                         yield dict(case, **{"a": a, "b": b, which: t2})
+        for which, t in (("a", a), ("b", b)):      # fewer digits (the unit of the coordinates is kept)
+            for nd in (3, 6, 9):
+                t2 = [[float("%.*g" % (nd, v)) for v in q] for q in t]
+                if t2 != t:
+                    yield dict(case, **{"a": a, "b": b, which: t2})
 
     def search_cases(self, rng):
         # the quick scopes again (other random draws) rather than the 290 k cases of the thorough tier
